@@ -30,7 +30,7 @@ CLAIMED = {
          "Each scenario runs one multi-thread encode per supervised child with a hook callback that injects seeded delays at every channel send/recv, buffer lock and thread start/exit and records a totally ordered event log; bytes(single)==bytes(multi)==bytes(frame-wise)==bytes(repeat) and the log must satisfy T1 buffer ownership, T2 frame numbering/exactly-once, T3 stop tokens, T4 hasher FIFO, T5 all helpers exited. Evidence reports distinct interleavings and runs with out-of-order completion. ThreadSanitizer and Miri passes (thorough) add data-race/UB/deadlock/leak detection on reduced workloads.",
          "Schedules are sampled, not enumerated; TSan only sees synchronisation it intercepts (std is rebuilt with -Zbuild-std).", "DESIGN.md 2/C05"),
  "C06": ("fault_enumeration", "runtime monitoring: enumerated source faults x worker counts x schedule policies in supervised children; /proc-state deadlock detection; event-log thread-leak check",
-         "Every fault position (read error at read k for k in 0..=F; out-of-range sample at first/middle/last position of block k) for F in {1,2,3,5,8,12} is enumerated and crossed with worker counts and schedule policies; each call must return (deadlock decided from /proc task states, never a deadline), no thread may panic, the error kind must match single-thread, and no helper thread may survive the call (event log + /proc/self/task).",
+         "Every fault position (read error at read k for k in 0..=F; out-of-range sample at first/middle/last position of block k) for F in {1,2,3,5,8,12} is enumerated and crossed with worker counts and schedule policies; each call must return (deadlock decided from /proc task states, never a deadline), no thread may panic, the error kind must equal single-thread's (also with several faults: errors are reported in stream order), and no helper thread may survive the call (event log + /proc/self/task).",
          "A livelock would be reported as inconclusive (watchdog); schedules are sampled.", "DESIGN.md 2/C06"),
  "C07": ("exploration", "runtime monitoring: independent range predicate vs verify() + probe-corpus encodes of every accepted configuration",
          "Each field at min-1/min/max/max+1/0/usize::MAX (floats: -0, -eps, 0, tiny, 1, 1+eps, inf, NaN), all pairs of such boundary values (thorough) and random assignments: an independent restatement of the documented ranges must equal verify()/into_verified(); accepted configurations encode a 12-input probe corpus without panic and losslessly.",
@@ -80,10 +80,33 @@ def main():
     for k, v in extra.get("claimed", {}).items():
         claimed[k] = tuple(v)
     checks = []
+    def passes(pid):
+        q = [] if pid == "C20" else ["chk"]
+        t = list(q)
+        if pid in ("C05", "C06"):
+            q.append("miri")
+        if pid in ("C01", "C05", "C06", "C10", "C11", "C12", "C14", "C16"):
+            t.append("miri")
+        if pid in ("C03", "C05", "C06"):
+            t.append("tsan")
+        if pid in ("C01", "C11", "C14", "C16"):
+            t.append("asan")
+        if pid == "C16":
+            t.append("fuzz")
+        return q, t
+    NAMES = {"chk": "chk = the same monitor re-run in a release build with integer-overflow checks and debug assertions on",
+             "miri": "miri = tiny workloads with the same oracles under the Miri interpreter (UB, data races, deadlock, leaked threads; one seeded schedule per shard)",
+             "tsan": "tsan = the quick workload under ThreadSanitizer (-Zbuild-std)",
+             "asan": "asan = the quick workload under AddressSanitizer/LeakSanitizer",
+             "fuzz": "fuzz = libFuzzer+ASan on parser::stream/verify/Decode/write seeded with emitted streams"}
     for pid in ALL:
         if pid not in claimed:
             continue
         level, technique, text, note, ref = claimed[pid]
+        q, t = passes(pid)
+        if t:
+            technique += "; sanitizer passes: quick [" + ", ".join(q) + "], thorough [" + ", ".join(t) + "]"
+            text += " Sanitizer passes merged into the verdict and the evidence (coverage.sanitizer_passes): " + "; ".join(NAMES[x] for x in t) + " (quick tier runs: " + (", ".join(q) or "none") + "). DESIGN.md 6.1."
         checks.append({
             "property_id": pid,
             "quick_cmd": f"./check {pid} quick",
@@ -110,7 +133,7 @@ def main():
             "name": "fvmon",
             "path": "/verif/harness",
             "serves_properties": [c["property_id"] for c in checks],
-            "kind_free_text": "Rust harness: workload generators, independent FLAC decoder (refdec), bit-string sink model, schedule-perturbing hook callback + event-log trace checker, /proc-based supervisor, per-property monitors; sanitizer passes (Miri, TSan, debug-profile overflow checks) driven by scripts under /verif/checks",
+            "kind_free_text": "Rust harness: workload generators, independent FLAC decoder (refdec), bit-string sink model, schedule-perturbing hook callback + event-log trace checker, /proc-based supervisor, per-property monitors; failed-write poisoning between cases; sanitizer passes (chk = release + overflow checks + debug assertions, Miri mini workloads, ThreadSanitizer, AddressSanitizer, libFuzzer) orchestrated by ./check and tools/sanpass.py",
         }],
         "checks": checks,
         "not_applicable": na,
